@@ -40,6 +40,8 @@ def objective_value(name: str, x):
         if name == "const": return 1.0
         if name == "zero": return 0.0                                                     # every cost exactly 0.0
         if name == "deadzone": return float(np.sum(np.maximum(0.0, np.abs(v - 1.0) - 0.5)))  # a flat region of cost exactly 0.0 around the optimum: a converged swarm ties at 0
+        if name == "deathpenalty":                                                            # the usual hard-constraint idiom: +inf outside the feasible region
+            return float(np.sum(v * v)) if bool(np.all(np.abs(v) <= 6.0)) else float("inf")
         if name == "violation": return float(np.sum(np.maximum(0.0, np.abs(v) - 4.0)))        # a constraint-violation measure: exactly 0.0 on a large feasible region, positive outside
         if name == "terraces": return float(np.sum(np.floor(np.abs(v))))                      # terraced: many agents tie exactly at DIFFERENT coordinates
         if name == "flatscale": return float(1.0 + 1e-9 * np.sum(v * v))                  # a badly scaled objective: costs differ in the 9th digit only
